@@ -14,7 +14,7 @@ func init() {
 	register(&Property{
 		ID:        "C10",
 		Title:     "Workload traffic dispatch is exact and fails closed",
-		Technique: "static analysis: builder-chain facts of generictables.Rule literals, argument-tuple resolution across call sites, value provenance and dominance (go/ssa over felix/rules)",
+		Technique: "static analysis: builder-chain facts of generictables.Rule literals, argument-tuple resolution across call sites, value provenance and dominance (go/ssa over felix/rules), return-reachability in the nftables map/set replace operations (felix/nftables)",
 		DesignRef: "DESIGN.md §3 C10",
 		Explanation: "Decides structural clauses of interface dispatch in felix/rules/dispatch.go. (endrules) every generictables.Chain built by buildSingleDispatchChainTree/VMAP " +
 			"(root and goto'd child) ends with the caller's end rules, and the dispatcher passes them through unchanged. (leaf) each per-interface rule matches and targets the same " +
@@ -24,9 +24,10 @@ func init() {
 			"prefix get end rules that are exactly one unconditional IptablesFilterDenyAction rule; the endpoint-mark dispatch chains end in deny for workload-prefix/unknown marks. " +
 			"(wildcardhep) builds with a host prefix get end rules that only goto the wildcard HEP's chain of the same prefix, only under defaultIfaceName != \"\". (vmap) nftables verdict-map " +
 			"dispatch: the from/to map names, matchers and chain prefixes agree between the root rule, DispatchMappings and the map programmed by the endpoint manager. (sorted) the " +
-			"adjacent-duplicate elimination runs on sorted names.",
+			"adjacent-duplicate elimination runs on sorted names. (replace) the AddOrReplace* operations of felix/nftables (Maps.AddOrReplaceMap, through which the dispatch verdict maps are programmed, its tableLayer wrapper, " +
+			"and the sibling IPSets.AddOrReplaceIPSet) run the stale-member pass over the desired view before every return — also when the new member set is empty — and that pass deletes every desired member the set built from the members argument does not contain.",
 		NotDecided: "Prefix-tree correctness over all name sets (that bins partition the names and wildcard matches are disjoint) is not proved; kernel matching semantics of 'prefix+'; " +
-			"that static chains jump to the dispatch chains only for workload-prefixed interfaces (see C40); determinism of rule order.",
+			"that static chains jump to the dispatch chains only for workload-prefixed interfaces (see C40); determinism of rule order; that the nftables transaction built from the desired/dataplane delta is applied (C15); chain reference counting of map members.",
 		Assumptions: []string{
 			"go/types + go/ssa (x/tools v0.50.0) model of the current source, CGO_ENABLED=0 build",
 			"direction table of exported chain-name constants in rules_C10.go (from/to, prefix ↔ dispatch chain) transcribed from rule_defs.go",
@@ -73,6 +74,14 @@ func init() {
 				Old: "fromMappings[endpoint.Name] = []string{fmt.Sprintf(\"goto %s\", EndpointChainName(WorkloadFromEndpointPfx,", New: "fromMappings[endpoint.Name] = []string{fmt.Sprintf(\"goto %s\", EndpointChainName(WorkloadToEndpointPfx,", Expect: "C10.vmap/mappings"},
 			{Name: "endpoint manager programs the maps crosswise", File: "felix/dataplane/linux/endpoint_mgr.go",
 				Old: "Name: rules.NftablesFromWorkloadDispatchMap, Type: nftables.MapTypeInterfaceMatch}, fromMappings)", New: "Name: rules.NftablesFromWorkloadDispatchMap, Type: nftables.MapTypeInterfaceMatch}, toMappings)", Expect: "C10.vmap/programmed"},
+			{Name: "replace with the empty set returns before removing stale members", File: "felix/nftables/maps.go",
+				Old: "\tmemberTracker := s.getOrCreateMemberTracker(meta.Name)\n", New: "\tmemberTracker := s.getOrCreateMemberTracker(meta.Name)\n\tif canonMembers.Len() == 0 {\n\t\ts.updateDirtiness(meta.Name)\n\t\treturn\n\t}\n", Expect: "C10.replace/Maps.AddOrReplaceMap/every-path"},
+			{Name: "stale map members tested against the desired set itself", File: "felix/nftables/maps.go",
+				Old: "\t\tif canonMembers.Contains(k) {\n\t\t\tcanonMembers.Discard(k)\n\t\t} else {\n\t\t\t// Decref", New: "\t\tif desiredMembers.Contains(k) {\n\t\t\tcanonMembers.Discard(k)\n\t\t} else {\n\t\t\t// Decref", Expect: "C10.replace/Maps.AddOrReplaceMap/stale-deleted"},
+			{Name: "set replace keeps members missing from the new set", File: "felix/nftables/ipsets.go",
+				Old: "\t\tif canonMembers.Contains(k) {\n\t\t\tcanonMembers.Discard(k)\n\t\t} else {\n\t\t\tdesiredMembers.Delete(k)\n\t\t}\n", New: "\t\tif canonMembers.Contains(k) {\n\t\t\tcanonMembers.Discard(k)\n\t\t}\n", Expect: "C10.replace/IPSets.AddOrReplaceIPSet/stale-deleted"},
+			{Name: "table layer drops a replace with no members", File: "felix/nftables/table_layer.go",
+				Old: "\t// Call the underlying implementation.\n\tt.maps.AddOrReplaceMap(meta, members)\n", New: "\tif len(members) == 0 {\n\t\treturn\n\t}\n\tt.maps.AddOrReplaceMap(meta, members)\n", Expect: "C10.replace/tableLayer.AddOrReplaceMap/every-path"},
 			{Name: "names binned without sorting", File: "felix/rules/dispatch.go",
 				Old: "\t// Otherwise we would reprogram the dispatch chain when there is no real change.\n\tsort.Strings(names)\n", New: "", Expect: "C10.sorted/DefaultRuleRenderer.sortAndDivideEndpointNamesToPrefixTree"},
 		},
@@ -145,11 +154,29 @@ func runC10(c *Ctx) {
 			dpPkg = ""
 		}
 	}
+	// felix/nftables (C10.replace) is analysed in the base run and in variants
+	// that touch it; a variant that touches only felix/nftables re-runs nothing else.
+	nft := c.Overlay == nil
+	for f := range c.Overlay {
+		if strings.Contains(f, "/"+c10NftPkg+"/") {
+			nft = true
+		}
+	}
+	if c.Overlay != nil && nft {
+		c10Replace(c, c.Load(c10NftPkg))
+		return
+	}
 	roots := []string{c10RulesPkg}
 	if dpPkg != "" {
 		roots = append(roots, dpPkg)
 	}
+	if nft {
+		roots = append(roots, c10NftPkg)
+	}
 	p := c.Load(roots...)
+	if nft {
+		c10Replace(c, p)
+	}
 	m := &c10Model{c: c, p: p, lits: map[*ssa.Function][]*c10Lit{}}
 	for _, f := range p.AllFuncs() {
 		if f.Pkg != nil && f.Pkg.Pkg.Path() == calicoPrefix+c10RulesPkg && f.Parent() == nil {
@@ -1151,4 +1178,335 @@ func (m *c10Model) checkSorted() {
 				"adjacent-duplicate elimination over "+path(lp.slice)+" without a dominating sort: with duplicate names a name equal to the common prefix forms a multi-name bin whose wildcard rule captures every other interface")
 		}
 	}
+}
+
+// ----------------------------------------------------------------- replace --
+
+const (
+	c10NftPkg = "felix/nftables"
+	c10DTPkg  = "felix/deltatracker"
+)
+
+func c10IsDesiredSetMethod(f *types.Func, name string) bool {
+	return f != nil && f.Pkg() != nil && f.Pkg().Path() == calicoPrefix+c10DTPkg && methodNamed(f, "DesiredSetView", name)
+}
+
+// c10ReachesReturn: a Return of fn reachable from its entry without crossing an
+// If edge accepted by cut and without executing an instruction accepted by stop
+// (nil if none).  Blocks that end in panic / log.Panic are not continued.
+func c10ReachesReturn(fn *ssa.Function, cut EdgePred, stop func(ssa.Instruction) bool) *ssa.Return {
+	if len(fn.Blocks) == 0 {
+		return nil
+	}
+	seen := map[*ssa.BasicBlock]bool{}
+	st := []*ssa.BasicBlock{fn.Blocks[0]}
+	for len(st) > 0 {
+		b := st[len(st)-1]
+		st = st[:len(st)-1]
+		if seen[b] {
+			continue
+		}
+		seen[b] = true
+		if isPanicBlock(b) {
+			continue
+		}
+		stopped := false
+		for _, in := range b.Instrs {
+			if stop(in) {
+				stopped = true
+				break
+			}
+			if r, ok := in.(*ssa.Return); ok {
+				return r
+			}
+		}
+		if stopped {
+			continue
+		}
+		if ifi, ok := b.Instrs[len(b.Instrs)-1].(*ssa.If); ok && len(b.Succs) == 2 && b.Succs[0] != b.Succs[1] {
+			for k, s := range b.Succs {
+				if c, pol := stripNot(ifi.Cond, k == 0); cut != nil && cut(c, pol) {
+					continue
+				}
+				st = append(st, s)
+			}
+			continue
+		}
+		st = append(st, b.Succs...)
+	}
+	return nil
+}
+
+// c10DerivesFrom: v (a value of fn, or of a closure nested in it) is computed
+// from parameter par: through loads of locals, closure bindings, conversions
+// and calls that take a derived value as an argument.
+func c10DerivesFrom(v ssa.Value, par *ssa.Parameter) bool {
+	seen := map[ssa.Value]bool{}
+	var walk func(v ssa.Value, d int) bool
+	walk = func(v ssa.Value, d int) bool {
+		if v == nil || d > 12 || seen[v] {
+			return false
+		}
+		seen[v] = true
+		switch x := v.(type) {
+		case *ssa.Parameter:
+			return x == par
+		case *ssa.FreeVar:
+			fn := x.Parent()
+			idx := -1
+			for i, fv := range fn.FreeVars {
+				if fv == x {
+					idx = i
+				}
+			}
+			if fn.Parent() == nil || idx < 0 {
+				return false
+			}
+			found := false
+			allInstrs(fn.Parent(), false, func(_ *ssa.Function, in ssa.Instruction) {
+				if mc, ok := in.(*ssa.MakeClosure); ok && mc.Fn == ssa.Value(fn) && idx < len(mc.Bindings) && walk(mc.Bindings[idx], d+1) {
+					found = true
+				}
+			})
+			return found
+		case *ssa.Alloc:
+			if x.Referrers() == nil {
+				return false
+			}
+			for _, r := range *x.Referrers() {
+				if st, ok := r.(*ssa.Store); ok && st.Addr == ssa.Value(x) && walk(st.Val, d+1) {
+					return true
+				}
+			}
+			return false
+		case *ssa.UnOp:
+			return walk(x.X, d+1)
+		case *ssa.Phi:
+			for _, e := range x.Edges {
+				if walk(e, d+1) {
+					return true
+				}
+			}
+			return false
+		case *ssa.MakeInterface:
+			return walk(x.X, d+1)
+		case *ssa.ChangeInterface:
+			return walk(x.X, d+1)
+		case *ssa.ChangeType:
+			return walk(x.X, d+1)
+		case *ssa.Convert:
+			return walk(x.X, d+1)
+		case *ssa.Extract:
+			return walk(x.Tuple, d+1)
+		case *ssa.Call:
+			for _, a := range x.Common().Args {
+				if walk(a, d+1) {
+					return true
+				}
+			}
+			return x.Common().IsInvoke() && walk(x.Common().Value, d+1)
+		}
+		return false
+	}
+	return walk(v, 0)
+}
+
+// c10Replace: "replace" operations of the nftables map / set trackers.  The
+// workload dispatch verdict maps are programmed through Maps.AddOrReplaceMap
+// (C10.vmap/programmed); an interface that is no longer a member must leave the
+// map, otherwise its packets are still dispatched instead of dropped.
+//
+//	every-path:    every return of the operation is preceded by the removal of
+//	               stale desired members (Desired().Iter(<callback>) or DeleteAll()).
+//	stale-deleted: in that callback, unless the member is contained in the set
+//	               built from the operation's members argument, it is Delete()d
+//	               from the desired view before the callback returns.
+func c10Replace(c *Ctx, p *Prog) {
+	c.Rule("C10.replace", "E-ORDER/E-GUARD", "AddOrReplace* operations of felix/nftables make the desired member set equal to their argument on every path: every return is preceded by the stale-member pass over the desired view, and that pass deletes every member not contained in the new set (layers that only forward the members to another AddOrReplace* must do so on every path)", 5)
+	var fns []*ssa.Function
+	for _, f := range p.AllFuncs() {
+		if f.Parent() == nil && f.Pkg != nil && f.Pkg.Pkg.Path() == calicoPrefix+c10NftPkg && f.Signature.Recv() != nil &&
+			strings.HasPrefix(f.Name(), "AddOrReplace") && f.Blocks != nil {
+			fns = append(fns, f)
+		}
+	}
+	sort.Slice(fns, func(i, j int) bool { return fnName(fns[i]) < fnName(fns[j]) })
+	haveMaps := false
+	for _, f := range fns {
+		if fnName(f) == "Maps.AddOrReplaceMap" {
+			haveMaps = true
+		}
+	}
+	if !haveMaps {
+		c.Lost("%s.Maps.AddOrReplaceMap (found %d AddOrReplace* methods)", c10NftPkg, len(fns))
+	}
+	inPkg := func(f *ssa.Function) bool {
+		return f != nil && f.Blocks != nil && f.Pkg != nil && f.Pkg.Pkg.Path() == calicoPrefix+c10NftPkg
+	}
+	isReplaceOp := func(f *types.Func) bool {
+		return f != nil && strings.HasPrefix(f.Name(), "AddOrReplace") && f.Type().(*types.Signature).Recv() != nil
+	}
+	derivesAny := func(v ssa.Value, pars []*ssa.Parameter) bool {
+		for _, pa := range pars {
+			if c10DerivesFrom(v, pa) {
+				return true
+			}
+		}
+		return false
+	}
+	// isPass: in executes the stale-member pass: Iter/DeleteAll on a desired set
+	// view, delegation of the members to another AddOrReplace* operation, or a
+	// helper of the package that does one of these before each of its returns.
+	var isPass func(fn *ssa.Function, pars []*ssa.Parameter, depth int) func(ssa.Instruction) bool
+	isPass = func(fn *ssa.Function, pars []*ssa.Parameter, depth int) func(ssa.Instruction) bool {
+		return func(in ssa.Instruction) bool {
+			call, ok := in.(*ssa.Call)
+			if !ok {
+				return false
+			}
+			f := calleeOf(call.Common())
+			if c10IsDesiredSetMethod(f, "Iter") || c10IsDesiredSetMethod(f, "DeleteAll") {
+				return true
+			}
+			if isReplaceOp(f) {
+				for _, a := range (CallSite{call, f, fn}).Args()[1:] {
+					if derivesAny(a, pars) {
+						return true
+					}
+				}
+				return false
+			}
+			if h := calleeFn(call.Common()); inPkg(h) && depth < 2 && h != fn {
+				return c10ReachesReturn(h, nil, isPass(h, c10ParamsFedBy(call, h, pars), depth+1)) == nil
+			}
+			return false
+		}
+	}
+	type pass struct {
+		it   *ssa.Call
+		in   *ssa.Function
+		pars []*ssa.Parameter
+	}
+	var collect func(fn *ssa.Function, pars []*ssa.Parameter, depth int) (passes []pass, delegates bool)
+	collect = func(fn *ssa.Function, pars []*ssa.Parameter, depth int) (passes []pass, delegates bool) {
+		allInstrs(fn, false, func(_ *ssa.Function, in ssa.Instruction) {
+			call, ok := in.(*ssa.Call)
+			if !ok {
+				return
+			}
+			f := calleeOf(call.Common())
+			switch {
+			case c10IsDesiredSetMethod(f, "Iter"):
+				passes = append(passes, pass{call, fn, pars})
+			case isReplaceOp(f):
+				if isPass(fn, pars, depth)(in) {
+					delegates = true
+				}
+			default:
+				if h := calleeFn(call.Common()); inPkg(h) && depth < 2 && h != fn {
+					if hp := c10ParamsFedBy(call, h, pars); len(hp) > 0 {
+						ps, d := collect(h, hp, depth+1)
+						passes = append(passes, ps...)
+						delegates = delegates || d
+					}
+				}
+			}
+		})
+		return
+	}
+	for _, fn := range fns {
+		name := fnName(fn)
+		// the members argument: the last map/slice parameter
+		var members *ssa.Parameter
+		for _, pa := range fn.Params {
+			switch pa.Type().Underlying().(type) {
+			case *types.Map, *types.Slice:
+				members = pa
+			}
+		}
+		if members == nil {
+			c.Lost("%s: no map/slice parameter holding the new members", name)
+		}
+		passes, delegates := collect(fn, []*ssa.Parameter{members}, 0)
+		r := c10ReachesReturn(fn, nil, isPass(fn, []*ssa.Parameter{members}, 0))
+		site := p.Pos(fn.Pos())
+		if r != nil {
+			site = p.Pos(r.Pos())
+		}
+		c.Check(r == nil, "C10.replace/"+name+"/every-path", site,
+			"every return is preceded by the stale-member pass over the desired view (or by handing the members to the underlying AddOrReplace* operation)",
+			name+" can return without having run the pass that removes no-longer-wanted members from the desired view (Desired().Iter(…Delete…) / DeleteAll()): members of the previous set stay programmed — a removed workload interface keeps its dispatch entry")
+		if len(passes) == 0 && delegates {
+			continue // pure delegation: the callee is checked as its own operation
+		}
+		if len(passes) == 0 {
+			c.Violate("C10.replace/"+name+"/stale-deleted", p.Pos(fn.Pos()), "%s has no Desired().Iter(callback) pass that deletes the members missing from %s", name, members.Name())
+			continue
+		}
+		for _, ps := range passes {
+			it := ps.it
+			args := it.Common().Args
+			cb := c10ClosureFn(args[len(args)-1])
+			if cb == nil || cb.Blocks == nil || len(cb.Params) != 1 {
+				c.Undecided("C10.replace/"+name+"/stale-deleted", p.Pos(it.Pos()), "callback of the stale-member pass is not a function literal (%s)", path(args[len(args)-1]))
+				continue
+			}
+			k := cb.Params[0]
+			inNew := func(cond ssa.Value, pol bool) bool {
+				if !pol {
+					return false
+				}
+				if ex, ok := cond.(*ssa.Extract); ok && ex.Index == 1 {
+					if lk, ok := ex.Tuple.(*ssa.Lookup); ok && lk.CommaOk && lk.Index == ssa.Value(k) {
+						return derivesAny(lk.X, ps.pars)
+					}
+					return false
+				}
+				call, ok := cond.(*ssa.Call)
+				if !ok {
+					return false
+				}
+				f := calleeOf(call.Common())
+				if f == nil || f.Name() != "Contains" {
+					return false
+				}
+				a := (CallSite{call, f, cb}).Args()
+				return len(a) == 2 && a[1] == ssa.Value(k) && derivesAny(a[0], ps.pars)
+			}
+			deletes := func(in ssa.Instruction) bool {
+				call, ok := in.(*ssa.Call)
+				if !ok || !c10IsDesiredSetMethod(calleeOf(call.Common()), "Delete") {
+					return false
+				}
+				a := call.Common().Args
+				return len(a) == 2 && a[1] == ssa.Value(k)
+			}
+			r := c10ReachesReturn(cb, inNew, deletes)
+			site := p.Pos(it.Pos())
+			if r != nil {
+				site = p.Pos(r.Pos())
+			}
+			c.Check(r == nil, "C10.replace/"+name+"/stale-deleted", site,
+				"a desired member is kept only if the set built from "+members.Name()+" contains it; otherwise it is deleted from the desired view",
+				"the stale-member callback of "+name+" can return without Delete("+k.Name()+") on a path where "+k.Name()+" was not found in the set built from "+members.Name()+": a previously desired member that is absent from the new set stays desired")
+		}
+	}
+}
+
+// c10ParamsFedBy: the parameters of callee h that receive, at call, an argument
+// derived from one of pars.
+func c10ParamsFedBy(call *ssa.Call, h *ssa.Function, pars []*ssa.Parameter) []*ssa.Parameter {
+	var out []*ssa.Parameter
+	for i, a := range call.Common().Args {
+		if i >= len(h.Params) {
+			break
+		}
+		for _, pa := range pars {
+			if c10DerivesFrom(a, pa) {
+				out = append(out, h.Params[i])
+				break
+			}
+		}
+	}
+	return out
 }
